@@ -34,6 +34,8 @@ def child(prop: str, fam: str):
         execs += out['executions']
         for v in out['viols']:
             viols.append([v.key, v.what[:600], v.replay])
+        if cfg.died:
+            continue          # a task of the serial backend cannot die separately from the caller
         obs = run_once_serial(cfg)
         execs += 1
         for key, msg in e2.ORACLES[prop](obs):
